@@ -1036,6 +1036,45 @@ class DistTranslator:
         infos.append({"name": stem + "_result", "parameters": rparams})
         return "\n".join(out), infos
 
+    def update_fragment(self, fn, var, lean_name):
+        """the ONE statement of `fn` (outside declarations) that assigns the local `var`, as a function of the local's value
+        (and of whatever other locals it reads): `x_offset += T` -> `def <lean_name> (x_offset : K) : K := x_offset + T`.
+        Also returns the initial value given in the declaration of `var`."""
+        hits, init = [], []
+
+        def rec(n):
+            if not isinstance(n, dict):
+                return
+            k = n.get("kind")
+            if k in ("BinaryOperator", "CompoundAssignOperator") and (n.get("opcode") == "=" or k == "CompoundAssignOperator"):
+                l = strip(kids(n)[0])
+                if l.get("kind") == "DeclRefExpr" and l["referencedDecl"].get("name") == var:
+                    hits.append(n)
+            if k == "UnaryOperator" and n.get("opcode") in ("++", "--") and self.base_var(kids(n)[0]) == var:
+                hits.append(n)
+            if k == "VarDecl" and n.get("name") == var:
+                init.extend(c for c in kids(n) if not c.get("kind", "").endswith("Attr") and c.get("kind") != "FullComment")
+            for c in kids(n):
+                rec(c)
+        rec(fn)
+        if len(hits) != 1 or len(init) != 1:
+            raise Untranslatable("%s: expected one initialiser and exactly one assignment of %s, found %d / %d" % (
+                fn.get("name"), var, len(init), len(hits)))
+        env_all = self.local_types(fn)
+        info = FnInfo(lean_name)
+        f = type("F", (), {})()
+        f.info, f.env, f.loop_depth = info, dict(env_all), 0
+        params = [var] + [v for v in self.local_reads(hits[0], env_all, []) if v != var]
+        lines = self.simple_stmt(hits[0], f)
+        if lines is None or info.draws or info.ext or info.libm:
+            raise Untranslatable("%s: the assignment of %s is outside the subset" % (fn.get("name"), var))
+        sig = " ".join("(%s : %s)" % (lname(v), self.lean_type(env_all[v])) for v in params)
+        text = "def %s %s : %s :=\n%s\n" % (lean_name, sig, self.lean_type(env_all[var]), "\n".join(ind(lines + [lname(var)])))
+        pre = []
+        i0 = self.expr(init[0], f, pre)
+        text += "\ndef %s_init : %s := %s\n" % (lean_name, self.lean_type(env_all[var]), i0)
+        return text, {"name": lean_name, "variable": var, "parameters": params}
+
     def calls_self(self, n, name):
         if not isinstance(n, dict):
             return False
